@@ -265,6 +265,12 @@ def run(chk):
         chk.known(key, what)
       else:
         chk.violation('oracle', what, pr[key])
+  for b in pr.get('sow_reduce_histories', [{'missing': True}])[:3]:
+    chk.violation('oracle', 'ToNNX over a history of calls: the wrapper does not return / hold what Linen apply returns on the variables it held '
+                  '(running statistics kept with sow(reduce_fn=...) and a mutable batch_stats counter)', b)
+  for b in pr.get('tolinen_partition_specs', [{'missing': True}])[:4]:
+    chk.violation('oracle', 'ToLinen: the partition specs of the Linen variables differ from those of the wrapped NNX module (per-variable sharding_rules combined with the '
+                  'nn.logical_axis_rules context)', b)
   chk.notes['stats'] = stat
   chk.cov['rule'] = ('ToNNX around random Linen module programs (C01 generator without sow; nested sub-modules, variables of 9 collections incl. unregistered names, perturb, make_rng, name clashes '
                      'in every tenth) x mutable in {True, written collections, subsets, False, DenyList} x 1-3 calls after lazy_init; ToLinen around NNX modules with 1-5 Variables of 4 types '
